@@ -18,7 +18,8 @@ theorem Inv.refs_pos_of_desc {s : State} (h : Inv s) (hd : 0 < s.rd + s.wr) : 0 
 theorem Inv.refs_pos_of_link {s : State} (h : Inv s) (hl : 0 < s.linkCount) : 0 < s.refs := by
   have := h.refsEq; have := baseLinks_pos_of_link hl; omega
 
-theorem inv_init (layered exec : Bool) (size : Nat) (m : Mask) : Inv (init layered exec size m) := by
+theorem inv_init (checked layered exec : Bool) (size : Nat) (m : Mask) :
+    Inv (init checked layered exec size m) := by
   refine ⟨rfl, ?_, ?_, ?_, rfl, PcInv.init _ _, ?_, ?_⟩
   rotate_left 3
   · intro d hd; cases hd
@@ -47,41 +48,67 @@ theorem Inv.bytesChange {s : State} (h : Inv s) (hf : s.frozen = 0) (b' : Bytes)
     exact this.bytes_change _
   · intro d hd; cases hd
 
+/-- What a mutating call needs when it performs its change: nothing in the current code,
+the caller contract in the code before fix 17054c0. -/
+def MutOk (s : State) (op : MutOp) : Prop :=
+  s.checked = true ∨
+    ((op.needsDescriptor = true → 0 < s.rd + s.wr) ∧
+     (∀ n x, op = .setattr n x → 0 < s.rd + s.wr ∨ 0 < s.linkCount))
+
 /-- Body of a mutating call. -/
-theorem Inv.after_perform {s : State} (h : Inv s) (op : MutOp) (hf : s.frozen = 0)
-    (hd : op.needsDescriptor = true → 0 < s.rd + s.wr)
-    (hsz : ∀ n x, op = .setattr n x → 0 < s.rd + s.wr ∨ 0 < s.linkCount) :
+theorem Inv.after_perform {s : State} (h : Inv s) (op : MutOp) (hf : s.frozen = 0) (hok : MutOk s op) :
     Inv (perform s op).1 ∧ (perform s op).1.pc = s.pc ∧ (perform s op).1.frozen = s.frozen := by
+  -- either the call returns STALE without touching anything, or the pool file is still open
+  have key : ∀ (hne : op ≠ .openTrunc ⟨false, false⟩ → True),
+      (s.checked = true ∧ s.refs = 0) ∨ (¬ (s.checked = true ∧ s.refs = 0) ∧
+        ((∀ m, op ≠ .openTrunc m) → s.closed = false)) := by
+    intro _
+    by_cases hc : s.checked = true ∧ s.refs = 0
+    · exact Or.inl hc
+    · refine Or.inr ⟨hc, fun hm => ?_⟩
+      rcases hok with hck | ⟨hd, hsz⟩
+      · have : s.refs ≠ 0 := fun h0 => hc ⟨hck, h0⟩
+        exact h.notClosed_of_refs (Nat.pos_of_ne_zero this)
+      · cases op with
+        | write off data => exact h.notClosed_of_refs (h.refs_pos_of_desc (hd rfl))
+        | alloc off len => exact h.notClosed_of_refs (h.refs_pos_of_desc (hd rfl))
+        | setattr n x =>
+          rcases hsz n x rfl with h1 | h1
+          · exact h.notClosed_of_refs (h.refs_pos_of_desc h1)
+          · exact h.notClosed_of_refs (h.refs_pos_of_link h1)
+        | openTrunc m => exact absurd rfl (hm m)
   cases op with
   | write off data =>
-    have hnc := h.notClosed_of_refs (h.refs_pos_of_desc (hd rfl))
-    have hnc' : ¬ s.closed = true := by simp [hnc]
-    simp only [perform, if_neg hnc']
-    split
-    · exact ⟨h.bytesChange hf _ _, rfl, rfl⟩
-    · exact ⟨h, rfl, rfl⟩
+    rcases key (fun _ => trivial) with hst | ⟨hns, hnc⟩
+    · have e : perform s (.write off data) = (s, .wrote 0 .stale) := by simp only [perform, if_pos hst]
+      rw [e]; exact ⟨h, rfl, rfl⟩
+    · have hnc' : ¬ s.closed = true := by simp [hnc (fun m e => by cases e)]
+      simp only [perform, if_neg hns, if_neg hnc']
+      split
+      · exact ⟨h.bytesChange hf _ _, rfl, rfl⟩
+      · exact ⟨h, rfl, rfl⟩
   | alloc off len =>
-    have hnc := h.notClosed_of_refs (h.refs_pos_of_desc (hd rfl))
-    simp only [perform]
-    split
-    · have hf' := truncate_frame s (off + len)
-      exact ⟨h.after_truncate _ hf hnc, hf'.1, hf'.2.1⟩
-    · exact ⟨h, rfl, rfl⟩
+    rcases key (fun _ => trivial) with hst | ⟨hns, hnc⟩
+    · have e : perform s (.alloc off len) = (s, .st .stale) := by simp only [perform, if_pos hst]
+      rw [e]; exact ⟨h, rfl, rfl⟩
+    · simp only [perform, if_neg hns]
+      split
+      · have hf' := truncate_frame s (off + len)
+        exact ⟨h.after_truncate _ hf (hnc (fun m e => by cases e)), hf'.1, hf'.2.1⟩
+      · exact ⟨h, rfl, rfl⟩
   | setattr n x =>
-    have hpos : 0 < s.refs := by
-      rcases hsz n x rfl with h1 | h1
-      · exact h.refs_pos_of_desc h1
-      · exact h.refs_pos_of_link h1
-    have hnc := h.notClosed_of_refs hpos
-    have ht := h.after_truncate n hf hnc
-    have hfr := truncate_frame s n
-    have hnp : ¬ (truncate s n).1.panicked = true := by simp [ht.noPanic]
-    simp only [perform, if_neg hnp]
-    split
-    · cases x with
-      | none => exact ⟨ht, hfr.1, hfr.2.1⟩
-      | some b => exact ⟨ht.light b _ _ _ _ _, hfr.1, hfr.2.1⟩
-    · exact ⟨ht, hfr.1, hfr.2.1⟩
+    rcases key (fun _ => trivial) with hst | ⟨hns, hnc⟩
+    · have e : perform s (.setattr n x) = (s, .st .stale) := by simp only [perform, if_pos hst]
+      rw [e]; exact ⟨h, rfl, rfl⟩
+    · have ht := h.after_truncate n hf (hnc (fun m e => by cases e))
+      have hfr := truncate_frame s n
+      have hnp : ¬ (truncate s n).1.panicked = true := by simp [ht.noPanic]
+      simp only [perform, if_neg hns, if_neg hnp]
+      split
+      · cases x with
+        | none => exact ⟨ht, hfr.1, hfr.2.1⟩
+        | some b => exact ⟨ht.light b _ _ _ _ _, hfr.1, hfr.2.1⟩
+      · exact ⟨ht, hfr.1, hfr.2.1⟩
   | openTrunc m =>
     simp only [perform]
     split
@@ -99,9 +126,7 @@ theorem Inv.after_perform {s : State} (h : Inv s) (op : MutOp) (hf : s.frozen = 
 
 /-- `lockMutatingData` + body, by a thread that holds no frozen reader. -/
 theorem Inv.after_mutBody {s : State} (h : Inv s) (t : Nat) (op : MutOp)
-    (hold : (s.pc t).isFrozen = false)
-    (hd : op.needsDescriptor = true → 0 < s.rd + s.wr)
-    (hsz : ∀ n x, op = .setattr n x → 0 < s.rd + s.wr ∨ 0 < s.linkCount) :
+    (hold : (s.pc t).isFrozen = false) (hok : MutOk s op) :
     Inv (mutBody s t op).1 := by
   unfold mutBody
   split
@@ -109,24 +134,17 @@ theorem Inv.after_mutBody {s : State} (h : Inv s) (t : Nat) (op : MutOp)
     exact h.setPc_plain t _ hold rfl (fun _ _ => hf) (fun _ _ _ e => by cases e)
   · rename_i hf
     have hf0 : s.frozen = 0 := by omega
-    have hp := h.after_perform op hf0 hd hsz
+    have hp := h.after_perform op hf0 hok
     apply hp.1.setPc_plain t .idle _ rfl (fun _ e => by cases e) (fun _ _ _ e => by cases e)
     rw [hp.2.1]; exact hold
 
-theorem legal_mut {s : State} {op : MutOp} :
-    ((if op.needsDescriptor then decide (s.rd + s.wr > 0)
-      else match op with
-        | .setattr _ _ => decide (s.rd + s.wr > 0 ∨ s.linkCount > 0)
-        | _ => true) = true) →
-    (op.needsDescriptor = true → 0 < s.rd + s.wr) ∧
-    (∀ n x, op = .setattr n x → 0 < s.rd + s.wr ∨ 0 < s.linkCount) := by
-  intro hl
-  cases op <;> simp_all [MutOp.needsDescriptor]
-
-end BbRe.Lemmas.FileRef
-
-namespace BbRe.Lemmas.FileRef
-open BbRe.FileRef
+theorem legal_mut {s : State} {op : MutOp} (hl : (s.checked || mutContract s op) = true) : MutOk s op := by
+  cases hc : s.checked
+  · right
+    simp only [hc, Bool.false_or] at hl
+    unfold mutContract at hl
+    cases op <;> simp_all [MutOp.needsDescriptor]
+  · exact Or.inl hc
 
 theorem step_unfold {s : State} (h : s.panicked = false) : ¬ (s.panicked = true) := by simp [h]
 
@@ -302,9 +320,7 @@ open BbRe.FileRef
 theorem some_pair_eq {α β : Type} {p : α × β} {a : α} {b : β} (h : some p = some (a, b)) : p.1 = a := by
   cases h; rfl
 
-theorem inv_step_mbegin {s s' : State} {o : Out} (h : Inv s) (t : Nat) (op : MutOp)
-    (hd : op.needsDescriptor = true → 0 < s.rd + s.wr)
-    (hsz : ∀ n x, op = .setattr n x → 0 < s.rd + s.wr ∨ 0 < s.linkCount)
+theorem inv_step_mbegin {s s' : State} {o : Out} (h : Inv s) (t : Nat) (op : MutOp) (hok : MutOk s op)
     (hs : step s (.mbegin t op) = some (s', o)) : Inv s' := by
   unfold step at hs
   rw [if_neg (step_unfold h.noPanic)] at hs
@@ -312,13 +328,11 @@ theorem inv_step_mbegin {s s' : State} {o : Out} (h : Inv s) (t : Nat) (op : Mut
   split at hs
   · rename_i hpc
     rw [← some_pair_eq hs]
-    exact h.after_mutBody t op (by rw [hpc]; rfl) hd hsz
+    exact h.after_mutBody t op (by rw [hpc]; rfl) hok
   · cases hs
 
 theorem inv_step_mwake {s s' : State} {o : Out} (h : Inv s) (t : Nat)
-    (hleg : ∀ op w, s.pc t = .mutWait op w →
-      (op.needsDescriptor = true → 0 < s.rd + s.wr) ∧
-      (∀ n x, op = .setattr n x → 0 < s.rd + s.wr ∨ 0 < s.linkCount))
+    (hleg : ∀ op w, s.pc t = .mutWait op w → MutOk s op)
     (hs : step s (.mwake t) = some (s', o)) : Inv s' := by
   unfold step at hs
   rw [if_neg (step_unfold h.noPanic)] at hs
@@ -326,8 +340,7 @@ theorem inv_step_mwake {s s' : State} {o : Out} (h : Inv s) (t : Nat)
   split at hs
   · rename_i op hpc
     rw [← some_pair_eq hs]
-    have := hleg op true hpc
-    exact h.after_mutBody t op (by rw [hpc]; rfl) this.1 this.2
+    exact h.after_mutBody t op (by rw [hpc]; rfl) (hleg op true hpc)
   · cases hs
 
 theorem frozenPcFor_frozen (u : Bool) (fn : Nat) :
@@ -497,8 +510,7 @@ theorem inv_step {s s' : State} {o : Out} (op : Op) (h : Inv s) (hl : legal s op
   | chown => exact inv_step_simple h _ (Or.inr (Or.inl rfl)) hs
   | persist => exact inv_step_simple h _ (Or.inr (Or.inr (Or.inl rfl))) hs
   | mbegin t op =>
-    have := legal_mut (s := s) (op := op) hl
-    exact inv_step_mbegin h t op this.1 this.2 hs
+    exact inv_step_mbegin h t op (legal_mut hl) hs
   | mwake t =>
     refine inv_step_mwake h t ?_ hs
     intro op w hpc
@@ -518,7 +530,7 @@ theorem inv_step {s s' : State} {o : Out} (op : Op) (h : Inv s) (hl : legal s op
 
 theorem inv_reachable {s : State} (h : Reachable s) : Inv s := by
   induction h with
-  | init l x n m => exact inv_init l x n m
+  | init c l x n m => exact inv_init c l x n m
   | step op _ hl hs ih => exact inv_step op ih hl hs
 
 end BbRe.Lemmas.FileRef
